@@ -39,6 +39,12 @@ int f( int a,int * b , char**c ){
 #define MAX( a , b ) ( (a)>(b) ? (a):(b) )
 #if defined( X ) && ! defined(Y)
 #endif
+#define MULTI( a , b )   \\
+    do {\\
+        f( a ) ; \\
+        g( b ) ;    \\
+        h( a , b ) /* c */  \\
+    } while ( 0 )
 """,
     "CPP": """namespace n {class K : public B , private C{public: K( ) : m ( 0 ),n( 1 ) { } ~K ( );
 template< typename T ,typename U >T g( const T & t , U && u )const{ return static_cast< T >( t ) ; }
@@ -193,6 +199,29 @@ def _job(a):
     res = []
     for e in evs:
         if e.get("e") != "Space":
+            continue
+        if e["t2"] == "NL_CONT":
+            # the blank run before a backslash-newline: measured in the output bytes behind the first token
+            p1 = pos.get((e["l1"], e["c1"]))
+            if p1 is None or e["s1"] == "" or e["l1"] != e["l2"]:
+                continue
+            i1 = items[p1[1]]
+            k2 = i1[3]
+            while k2 < len(out) and out[k2] == " ":
+                k2 += 1
+            if out[k2:k2 + 2] != "\\\n":
+                continue
+            gout, gin = k2 - i1[3], e["c2"] - e["oce1"]
+            rule = e["rule"]
+            val = assign.get(rule, "")
+            key = (rule, val, e["av"], e["force"], min(gin, 3), True, min(gout, 3), True, "nlcont", e["t1"])
+            if key in seen:
+                continue
+            seen[key] = 1
+            res.append({"id": "%s|%s|%d:%d" % (cname, os.path.basename(src), e["l1"], e["c1"]), "rule": rule, "val": val, "av": AV.get(e["av"], "?"),
+                        "force": e["force"], "minsp": e["min_sp"], "gin": max(gin, 0), "same": True, "gout": max(gout, 0), "outsame": True,
+                        "cmt2": False, "s1": list(e["s1"][-12:]), "s2": ["\\"], "lang": lang, "t1": e["t1"], "t2": e["t2"],
+                        "src": src, "cname": cname})
             continue
         p1 = pos.get((e["l1"], e["c1"]))
         p2 = pos.get((e["l2"], e["c2"]))
